@@ -1404,7 +1404,7 @@ async fn wire_record(a: &[String]) -> Vec<String> {
     let dgrams: Arc<Mutex<Vec<Vec<u8>>>> = Arc::new(Mutex::new(vec![]));
     // the endpoint's request (client) or response (server) bytes
     let msg: Recorded = Arc::new(Mutex::new(vec![(0, vec![])]));
-    let reject = scenario == "connect_reject";
+    let reject = scenario.starts_with("connect_reject") || scenario == "connect_forbidden" || scenario == "connect_too_many";
     let mut errs: Vec<String> = vec![];
     let mut keep: Keep = vec![];
     let mut tasks = vec![];
@@ -1496,8 +1496,13 @@ async fn wire_record(a: &[String]) -> Vec<String> {
                     return ("-".to_string(), Some("accept:timeout".to_string()), keep)
                 }
             };
-            if sc2 == "connect_reject" {
-                let e = bounded(req.not_found()).await.is_none().then(|| "reject:timeout".to_string());
+            if sc2 == "connect_reject" || sc2 == "connect_forbidden" || sc2 == "connect_too_many" {
+                let done = match sc2.as_str() {
+                    "connect_forbidden" => bounded(req.forbidden()).await.is_some(),
+                    "connect_too_many" => bounded(req.too_many_requests()).await.is_some(),
+                    _ => bounded(req.not_found()).await.is_some(),
+                };
+                let e = (!done).then(|| "reject:timeout".to_string());
                 return ("-".to_string(), e, keep);
             }
             match bounded(req.accept()).await {
@@ -2342,7 +2347,7 @@ fn gen_c16_codes(emit: &mut dyn FnMut(&str, Vec<String>)) {
 fn gen_c16_round(emit: &mut dyn FnMut(&str, Vec<String>)) {
     gen_c16_codes(emit);
     for side in SIDES {
-        for scenario in ["connect_accept", "connect_reject", "streams", "dgram"] {
+        for scenario in ["connect_accept", "connect_reject", "connect_forbidden", "connect_too_many", "streams", "dgram"] {
             for rt in RTS {
                 emit("wire.record", vec![s(rt), s(side), s(scenario)]);
             }
